@@ -78,6 +78,35 @@ class Sim:
         return ("end", 0)
 
 
+def close_case(c):
+    """used while shrinking: append the completions an outstanding access still needs, so that the oracle's
+    closed-case rule (no trailing Pending) stays meaningful on sub-sequences"""
+    ops = [list(o) for o in c.ops]
+    if not ops or not ops[0] or ops[0][0] != 0 or len(ops[0]) % 2 != 1:
+        return c
+    ha = c.engine == "gen1"
+    sc = ops[0][1:]
+    sim = Sim(sc if ha else [x if (i % 2 or x not in (8, 9)) else 12 for i, x in enumerate(sc)])
+    waiting = None      # id of the pending await the body is suspended on
+    live = True
+    for o in ops[1:]:
+        if not o or not live: continue
+        if o[0] == 1 and len(o) == 3 and waiting is None and 0 <= o[1] <= 5 and not (ha and o[1] == 1):
+            if not sim.ended:
+                kind, k = sim.advance()
+                waiting = k if kind == "pend" else None
+        elif o[0] == 2 and len(o) == 4 and waiting is not None and o[1] == waiting:
+            kind, k = sim.advance()
+            waiting = k if kind == "pend" else None
+        elif o[0] == 3 and len(o) == 1 and waiting is None:
+            live = False
+    while waiting is not None:
+        ops.append([2, waiting, 1, 0])
+        kind, k = sim.advance()
+        waiting = k if kind == "pend" else None
+    return Case(c.engine, c.name, ops, c.meta)
+
+
 def gen_case(rng, engine, name, styles, script, n_acc, destroy_early, malformed, peek_p=0.15):
     ha = engine == "gen1"
     ops = [[0] + script]
